@@ -1,6 +1,7 @@
 package main
 
 import (
+	"sort"
 	"encoding/json"
 	"fmt"
 	"math/rand"
@@ -175,6 +176,34 @@ func devMS(pool *sup.Pool, args []string) int {
 	for k := range set {
 		fmt.Println("  ", k)
 	}
+	if len(args) > 1 {
+		// list the admitted orders of the given labels (space separated), e.g. "p1 p1 p2 p2 p2 p6"
+		labels := strings.Fields(args[1])
+		sort.Strings(labels)
+		seen := map[string]bool{}
+		var perm func(cur []string, rest []string)
+		perm = func(cur []string, rest []string) {
+			if len(rest) == 0 {
+				k := strings.Join(cur, " ")
+				if !seen[k] {
+					seen[k] = true
+					ok, dec := sem.New(p).Admits(cur, &sem.Search{MaxState: 20000, MaxSteps: 400000})
+					if ok || !dec {
+						fmt.Println("   admitted:", k, "decided", dec)
+					}
+				}
+				return
+			}
+			for i := range rest {
+				if i > 0 && rest[i] == rest[i-1] {
+					continue
+				}
+				nr := append(append([]string{}, rest[:i]...), rest[i+1:]...)
+				perm(append(append([]string{}, cur...), rest[i]), nr)
+			}
+		}
+		perm(nil, labels)
+	}
 	return 0
 }
 
@@ -308,6 +337,7 @@ func devAdmits(pool *sup.Pool, args []string) int {
 		Stdout  []string `json:"stdout"`
 	}
 	json.Unmarshal(raw, &w)
+	sem.DebugNoMemo = os.Getenv("VERIF_NOMEMO") != ""
 	var s int64
 	fmt.Sscanf(w.ID, "g%d", &s)
 	var p *ast.Program
